@@ -179,6 +179,12 @@ func SimC02(c *CheckCtx, i int, r *Rng) error {
 			points = append(points, failurePoint{name: fmt.Sprintf("torn@%d:%s+%d", e.Exec, e.Path, j), fault: proto.Fault{ExecSeq: e.Exec, Do: fmt.Sprintf("kill-after:%d", j)}, how: h})
 		}
 	}
+	// a process that dies while loading has written nothing yet: the tree must be untouched
+	for _, pi := range r.Perm(len(m.Pkgs))[:min(2, len(m.Pkgs))] {
+		f := filepath.Join(m.Pkgs[pi].Dir, m.Pkgs[pi].Files[0].Name)
+		points = append(points, failurePoint{name: "kill@load:" + f, how: "kill-before-save",
+			fault: proto.Fault{ExecSeq: -1, Kind: "os.open", Path: f, Phase: "load", Nth: r.Intn(2), Do: "kill"}})
+	}
 	c.Env.Stats.Add("failure-points-enumerated", int64(len(points)))
 
 	// 3. inject: batches of failure points share one setup and one never-failed reference
